@@ -459,11 +459,17 @@ func (p *Plugin) sendSplit(left int, right int, begin []int, data []byte) (int, 
 
 			middle := (left + right) / 2
 			statusCode, err = p.sendSplit(left, middle, begin, data)
-			if err != nil {
+			if err != nil && statusCode != http.StatusRequestEntityTooLarge {
 				return statusCode, err
 			}
 
-			return p.sendSplit(middle, right, begin, data)
+			// an event that is too large on its own is lost, the rest of the batch still has to be sent
+			rightStatusCode, rightErr := p.sendSplit(middle, right, begin, data)
+			if rightErr != nil {
+				return rightStatusCode, rightErr
+			}
+
+			return statusCode, err
 		default:
 			return statusCode, err
 		}
